@@ -769,6 +769,7 @@ ghost ckx_barrier Bool
 ghost ckx_sealed Bool
 ghost ckx_copied Bool
 ghost ckx_after Bool
+ghost ckx_syncedOff Int
 ghost c13_evals Int
 
 // calcWALSize(uint32(ps), uint32(n)) as the code computes it
@@ -790,17 +791,20 @@ func litestream.(*DB).verifyAndSyncWithExecutor(db, ctx, checkpointing, exec, ma
 
 func litestream.(*DB).checkpointWithExecutor(db, ctx, mode, exec) (walRestarted, err)
   requires db != nil && exec != nil
+  assumes 0 <= db.pageSize && db.pageSize <= 65536     // A-pagesize
   assumes forall t int :: {tx_lockrow[t]} !allocated(t) ==> !tx_lockrow[t]     // ghost well-formedness: the lock-row ghost is only ever set for transactions that exist
-  modifies $heap, $alloc, file_written, path_synced, path_handle, file_closed, pub_dst, pub_renamed, enc_pages, enc_last, pm_commitOff, pm_lastCommit, sync_off, sync_sz, sync_hdr, v_off, v_s1, v_s2, v_wsize, v_lpm, v_lpmCalled, v_detected, v_detCalled, v_belief, tx_lockrow, tx_done, ckx_barrier, ckx_sealed, ckx_copied, ckx_after
+  modifies $heap, $alloc, file_written, path_synced, path_handle, file_closed, pub_dst, pub_renamed, enc_pages, enc_last, pm_commitOff, pm_lastCommit, sync_off, sync_sz, sync_hdr, v_off, v_s1, v_s2, v_wsize, v_lpm, v_lpmCalled, v_detected, v_detCalled, v_belief, tx_lockrow, tx_done, ckx_barrier, ckx_sealed, ckx_copied, ckx_after, ckx_syncedOff
   at litestream.(*DB).verifyAndSyncWithExecutor#1 reset ckx_after = false
   at litestream.(*DB).verifyAndSyncWithExecutor#1 set ckx_copied = ($result1 == nil)
   at sql.(*Tx).ExecContext#1 reset ckx_sealed = false
   at sql.(*Tx).ExecContext#1 set ckx_barrier = ($result1 == nil)
   at litestream.(*DB).verifyAndSyncWithExecutor#2 set ckx_sealed = ($result1 == nil)
   at litestream.(*DB).execCheckpoint#1 assert [C02.copy-before] ckx_copied
+  at litestream.(*DB).execCheckpoint#1 set ckx_syncedOff = exec.state.lastSyncedWALOffset
   at litestream.(*DB).execCheckpoint#1 assert [C02.seal] mode == litestream.CheckpointModePassive ==> ckx_barrier && ckx_sealed
   at litestream.(*DB).verifyAndSyncWithExecutor#3 set ckx_after = ($result1 == nil)
   at litestream.(*DB).verifyAndSyncWithExecutor#4 set ckx_after = ($result1 == nil)
+  at litestream.(*DB).verifyAndSyncWithExecutor#4 assert [C01.checkpoint-no-unseen-frames] mode != litestream.CheckpointModeTruncate && (frameSize > 0 ==> (ckx_syncedOff > 32 ? walFrameN <= i64(ckx_syncedOff - 32) / frameSize : walFrameN <= 0))     // an incremental continuation after a FULL/RESTART checkpoint needs proof that the checkpoint saw no frame beyond what was copied
   at litestream.(*DB).sync#1 reset pub_renamed = false
   at litestream.(*DB).sync#1 reset sync_hdr = false
   at litestream.(*DB).sync#1 reset pm_commitOff = 0
@@ -815,7 +819,7 @@ func litestream.(*DB).checkpointWithExecutor(db, ctx, mode, exec) (walRestarted,
 func litestream.(*DB).checkpointIfNeeded(db, ctx, exec, origWALSize, newWALSize) (err)
   requires db != nil && exec != nil
   assumes 0 <= db.pageSize && db.pageSize <= 65536     // A-pagesize (0 = not yet initialised)
-  modifies $heap, $alloc, file_written, path_synced, path_handle, file_closed, pub_dst, pub_renamed, enc_pages, enc_last, pm_commitOff, pm_lastCommit, sync_off, sync_sz, sync_hdr, v_off, v_s1, v_s2, v_wsize, v_lpm, v_lpmCalled, v_detected, v_detCalled, v_belief, tx_lockrow, tx_done, ckx_barrier, ckx_sealed, ckx_copied, ckx_after, ck_n, ck_mode, ck_restarted
+  modifies $heap, $alloc, file_written, path_synced, path_handle, file_closed, pub_dst, pub_renamed, enc_pages, enc_last, pm_commitOff, pm_lastCommit, sync_off, sync_sz, sync_hdr, v_off, v_s1, v_s2, v_wsize, v_lpm, v_lpmCalled, v_detected, v_detCalled, v_belief, tx_lockrow, tx_done, ckx_barrier, ckx_sealed, ckx_copied, ckx_after, ckx_syncedOff, ck_n, ck_mode, ck_restarted
   at litestream.(*DB).checkpointWithExecutor#all set ck_n = ck_n + 1
   at litestream.(*DB).checkpointWithExecutor#all set ck_mode = $arg1
   at litestream.(*DB).checkpointWithExecutor#1 set ck_restarted = $result0
@@ -837,7 +841,7 @@ ghost c13_lastSynced Bool
 func litestream.(*DB).syncLocked(db, ctx, maxSyncWALBytes) (result, err)
   requires db != nil
   at litestream.(*DB).newSyncExecutor#1 reset pos_verifyErr = nil
-  modifies $heap, $alloc, file_written, path_synced, path_handle, file_closed, pub_dst, pub_renamed, enc_pages, enc_last, pm_commitOff, pm_lastCommit, sync_off, sync_sz, sync_hdr, v_off, v_s1, v_s2, v_wsize, v_lpm, v_lpmCalled, v_detected, v_detCalled, v_belief, tx_lockrow, tx_done, ckx_barrier, ckx_sealed, ckx_copied, ckx_after, ck_n, ck_mode, ck_restarted, pos_verifyErr, c13_evals, c13_exec
+  modifies $heap, $alloc, file_written, path_synced, path_handle, file_closed, pub_dst, pub_renamed, enc_pages, enc_last, pm_commitOff, pm_lastCommit, sync_off, sync_sz, sync_hdr, v_off, v_s1, v_s2, v_wsize, v_lpm, v_lpmCalled, v_detected, v_detCalled, v_belief, tx_lockrow, tx_done, ckx_barrier, ckx_sealed, ckx_copied, ckx_after, ckx_syncedOff, ck_n, ck_mode, ck_restarted, pos_verifyErr, c13_evals, c13_exec
   at litestream.(*DB).newSyncExecutor#1 set c13_exec = ($result0 != nil && $result1 == nil)
   at litestream.(*DB).checkpointIfNeeded#1 assert [C13.sizes] $arg1 == exec && $arg2 == result.origWALSize && $arg3 == result.newWALSize
   at litestream.(*DB).checkpointIfNeeded#1 set c13_evals = c13_evals + 1
@@ -847,7 +851,7 @@ func litestream.(*DB).syncLocked(db, ctx, maxSyncWALBytes) (result, err)
 // syncOnce: syncLocked under the executor semaphore.
 func litestream.(*DB).syncOnce(db, ctx, maxSyncWALBytes) (result, err)
   requires db != nil
-  modifies $heap, $alloc, file_written, path_synced, path_handle, file_closed, pub_dst, pub_renamed, enc_pages, enc_last, pm_commitOff, pm_lastCommit, sync_off, sync_sz, sync_hdr, v_off, v_s1, v_s2, v_wsize, v_lpm, v_lpmCalled, v_detected, v_detCalled, v_belief, tx_lockrow, tx_done, ckx_barrier, ckx_sealed, ckx_copied, ckx_after, ck_n, ck_mode, ck_restarted, pos_verifyErr, c13_evals, c13_exec
+  modifies $heap, $alloc, file_written, path_synced, path_handle, file_closed, pub_dst, pub_renamed, enc_pages, enc_last, pm_commitOff, pm_lastCommit, sync_off, sync_sz, sync_hdr, v_off, v_s1, v_s2, v_wsize, v_lpm, v_lpmCalled, v_detected, v_detCalled, v_belief, tx_lockrow, tx_done, ckx_barrier, ckx_sealed, ckx_copied, ckx_after, ckx_syncedOff, ck_n, ck_mode, ck_restarted, pos_verifyErr, c13_evals, c13_exec
   at litestream.(*DB).syncLocked#1 assert [C13.chunk] $arg1 == maxSyncWALBytes
   ensures [C13.gate] err == nil && c13_exec && (!result.limited || result.syncedToWALEnd) ==> c13_evals == old(c13_evals) + 1
   ensures c13_evals >= old(c13_evals)
@@ -856,7 +860,7 @@ func litestream.(*DB).syncOnce(db, ctx, maxSyncWALBytes) (result, err)
 // evaluated the checkpoint thresholds after that chunk.
 func litestream.(*DB).Sync(db, ctx) (err)
   requires db != nil
-  modifies $heap, $alloc, file_written, path_synced, path_handle, file_closed, pub_dst, pub_renamed, enc_pages, enc_last, pm_commitOff, pm_lastCommit, sync_off, sync_sz, sync_hdr, v_off, v_s1, v_s2, v_wsize, v_lpm, v_lpmCalled, v_detected, v_detCalled, v_belief, tx_lockrow, tx_done, ckx_barrier, ckx_sealed, ckx_copied, ckx_after, ck_n, ck_mode, ck_restarted, pos_verifyErr, c13_evals, c13_exec, c13_lastSynced
+  modifies $heap, $alloc, file_written, path_synced, path_handle, file_closed, pub_dst, pub_renamed, enc_pages, enc_last, pm_commitOff, pm_lastCommit, sync_off, sync_sz, sync_hdr, v_off, v_s1, v_s2, v_wsize, v_lpm, v_lpmCalled, v_detected, v_detCalled, v_belief, tx_lockrow, tx_done, ckx_barrier, ckx_sealed, ckx_copied, ckx_after, ckx_syncedOff, ck_n, ck_mode, ck_restarted, pos_verifyErr, c13_evals, c13_exec, c13_lastSynced
   at litestream.(*DB).syncOnce#1 assert [C13.chunk] $arg1 == db.MaxSyncWALBytes
   at litestream.(*DB).syncOnce#1 set c13_lastSynced = $result0.synced
   loop 0 invariant db == old(db) && c13_evals >= old(c13_evals)
@@ -1130,7 +1134,7 @@ ghost c01_replCalled Bool
 // SyncAndWait acknowledges only after a successful local sync followed by a successful replica sync.
 func litestream.(*DB).SyncAndWait(db, ctx) (err)
   requires db != nil && !c01_replCalled
-  modifies $heap, $alloc, c01_dbErr, c01_replErr, c01_replCalled, it_idx, l0_has, file_closed, c05_writeErr, c05_upErr, c05_dpos, c05_uploaded, c05_lockErr, c05_l0max, file_written, path_synced, path_handle, pub_dst, pub_renamed, enc_pages, enc_last, pm_commitOff, pm_lastCommit, sync_off, sync_sz, sync_hdr, v_off, v_s1, v_s2, v_wsize, v_lpm, v_lpmCalled, v_detected, v_detCalled, v_belief, tx_lockrow, tx_done, ckx_barrier, ckx_sealed, ckx_copied, ckx_after, ck_n, ck_mode, ck_restarted, pos_verifyErr, c13_evals, c13_exec, c13_lastSynced
+  modifies $heap, $alloc, c01_dbErr, c01_replErr, c01_replCalled, it_idx, l0_has, file_closed, c05_writeErr, c05_upErr, c05_dpos, c05_uploaded, c05_lockErr, c05_l0max, file_written, path_synced, path_handle, pub_dst, pub_renamed, enc_pages, enc_last, pm_commitOff, pm_lastCommit, sync_off, sync_sz, sync_hdr, v_off, v_s1, v_s2, v_wsize, v_lpm, v_lpmCalled, v_detected, v_detCalled, v_belief, tx_lockrow, tx_done, ckx_barrier, ckx_sealed, ckx_copied, ckx_after, ckx_syncedOff, ck_n, ck_mode, ck_restarted, pos_verifyErr, c13_evals, c13_exec, c13_lastSynced
   at litestream.(*DB).Sync#1 set c01_dbErr = $result0
   at litestream.(*Replica).Sync#1 assert [C01.ack-order] c01_dbErr == nil && $recv == db.Replica
   at litestream.(*Replica).Sync#1 set c01_replErr = $result0
